@@ -113,6 +113,105 @@ def check(case):
     return None
 
 
+# ---- correspondence with the recording state machine of the Lean model ------------------
+FN = {}
+
+
+def fid(name):
+    return FN.setdefault(name, len(FN))
+
+
+def expected_ops(prog):
+    """the operations the overloads must record for this program, with argument node IDs (None = not modelled)"""
+    ops = []
+    var2node = {}
+    nid = [0]
+
+    def emit(name, args):
+        ops.append({'f': fid(name), 'args': args})
+        nid[0] += 1
+        return nid[0] - 1
+    for i, _ in enumerate(prog['inputs']):
+        var2node[i] = emit('Id', [{'n': nid[0]}])          # Function(x): Id node whose argument is itself
+    nv = len(prog['inputs'])
+    for st in prog['steps']:
+        op = st['op']
+        if op == 'ew':
+            name = {'pow2': 'pow', 'pow3': 'pow', 'powm2': 'pow', 'pow1.5': 'pow'}.get(st['fn'], st['fn'])
+            args = [{'n': var2node[st['a']]}] + ([{'c': 0}] if name == 'pow' else [])
+            var2node[nv] = emit(name, args)
+        elif op == 'bin':
+            var2node[nv] = emit({'add': 'add', 'sub': 'sub', 'mul': 'mul', 'div': 'truediv'}[st['fn']], [{'n': var2node[st['a']]}, {'n': var2node[st['b']]}])
+        elif op == 'binc':
+            a = var2node[st['a']]
+            fn = st['fn']
+            if st['side'] == 'r':
+                c = emit('Id', [{'n': nid[0]}])
+                var2node[nv] = emit({'add': 'add', 'sub': 'sub', 'mul': 'mul', 'div': 'truediv'}[fn], [{'n': a}, {'n': c}])
+            elif fn in ('add', 'mul'):
+                c = emit('Id', [{'n': nid[0]}])
+                var2node[nv] = emit(fn, [{'n': a}, {'n': c}])
+            elif fn == 'sub':
+                ng = emit('neg', [{'n': a}])
+                c = emit('Id', [{'n': nid[0]}])
+                var2node[nv] = emit('add', [{'n': ng}, {'n': c}])
+            else:
+                c = emit('Id', [{'n': nid[0]}])
+                var2node[nv] = emit('truediv', [{'n': c}, {'n': a}])
+        elif op in ('getitem',):
+            var2node[nv] = emit('getitem', [{'n': var2node[st['a']]}, {'c': 0}])
+        elif op == 'sum':
+            var2node[nv] = emit('sum', [{'n': var2node[st['a']]}])
+        elif op == 'prod':
+            var2node[nv] = emit('prod', [{'n': var2node[st['a']]}])
+        elif op == 'transpose':
+            var2node[nv] = emit('transpose', [{'n': var2node[st['a']]}])
+        elif op == 'reshape':
+            var2node[nv] = emit('reshape', [{'n': var2node[st['a']]}, {'c': 0}])
+        elif op == 'dot':
+            var2node[nv] = emit('dot', [{'n': var2node[st['a']]}, {'n': var2node[st['b']]}])
+        elif op == 'outer':
+            var2node[nv] = emit('outer', [{'n': var2node[st['a']]}, {'n': var2node[st['b']]}])
+        elif op == 'dotc':
+            c = emit('Id', [{'n': nid[0]}])
+            a = var2node[st['a']]
+            var2node[nv] = emit('dot', [{'n': a}, {'n': c}] if st['side'] == 'r' else [{'n': c}, {'n': a}])
+        elif op == 'zeros':
+            var2node[nv] = emit('zeros', [{'c': 0}, {'n': var2node[st['like']]}, {'c': 0}])
+        elif op == 'setitem':
+            emit('setitem', [{'n': var2node[st['buf']]}, {'c': 0}, {'n': var2node[st['val']]}])
+            continue
+        else:
+            return None
+        nv += 1
+    return ops
+
+
+def structure_mismatch(ctx, case):
+    prog = case['prog']
+    ops = expected_ops(prog)
+    if ops is None:
+        return None
+    try:
+        cg, fx, fy = trace(prog, [wrap(a, case['rec_kind']) for a in case['rec']])
+    except Exception:
+        return None
+    m = ctx.model.ask({'op': 'tracer', 'ops': ops + ['off', {'f': 0, 'args': []}]})
+    got = []
+    for f in cg.functionList:
+        got.append((f.func.__name__.strip('_'), f.ID, [a.ID if isinstance(a, algopy.Function) else None for a in f.args]))
+    want = []
+    inv = {v: k for k, v in FN.items()}
+    for nd in m['nodes']:
+        want.append((inv[nd['f']].strip('_'), nd['id'], [a.get('n') for a in nd['args']]))
+    if len(got) != len(want) or m['count'] != cg.functionCount:
+        return 'structure-count: %d nodes recorded, the recording model expects %d' % (len(got), len(want))
+    for g, w in zip(got, want):
+        if g != w:
+            return 'structure-node: recorded node %s differs from the recording model %s' % (g, w)
+    return None
+
+
 def kwargs_check(rng):
     """nodes recorded with keyword arguments (fft/ifft with axis, n; sum with axis)"""
     shape = (rng.randint(2, 3), rng.randint(2, 3))
@@ -195,6 +294,12 @@ def run(ctx):
         f = check(case)
         if f:
             ctx.report(case, 'failure', f)
+        else:
+            f = structure_mismatch(ctx, case)
+            if f:
+                ctx.report(case, 'failure', f)
+            else:
+                ctx.count('structure-compared')
     for i in range(40 if ctx.tier == 'quick' else 400):
         case = kwargs_check(rng)
         ctx.evaluations += 1
